@@ -388,7 +388,8 @@ FDW_FUNCS = ["transport::fusedev::FuseDevWriter::{new, split_at, commit, bytes_w
              "<FuseDevWriter as std::io::Write>::{write, write_vectored}", "FileVolatileSlice::from_raw_ptr", "<&mut F as FileReadWriteVolatile>::{read_vectored_volatile, read_vectored_at_volatile}"]
 FDW_STUBS = [STUB_FMT, "nix::unistd::write / nix::sys::uio::writev -> ghost device recording every call (bytes, call count, fd), may refuse or accept short (symbolic)",
              "scripted FileReadWriteVolatile source producing a symbolic number of symbolic bytes"]
-for fn, q, props in [("c04_fdw_split4", True, ["C04", "C01"]), ("c04_fdw_split0", False, ["C04", "C01"]), ("c04_fdw_split12", False, ["C04", "C01"]), ("c04_fdw_split_edges", True, ["C04"]),
+for fn, q, props in [("c04_fdw_vectored_5_5", True, ["C04"]), ("c04_fdw_vectored_3_5", True, ["C04"]), ("c04_fdw_vectored_8_1", False, ["C04"]), ("c04_fdw_vectored_0_8", False, ["C04"]),
+              ("c04_fdw_split4", True, ["C04", "C01"]), ("c04_fdw_split0", False, ["C04", "C01"]), ("c04_fdw_split12", False, ["C04", "C01"]), ("c04_fdw_split_edges", True, ["C04"]),
               ("c04_fdw_unbuffered_write", True, ["C04", "C01"]), ("c04_fdw_unbuffered_vectored", True, ["C04", "C01"]),
               ("c04_fdw_write_from_buffered", True, ["C04"]), ("c04_fdw_write_from_at_buffered", False, ["C04"]), ("c04_fdw_write_from_unbuffered", False, ["C04"]),
               ("c04_fdw_write_from_at_unbuffered", True, ["C04"]), ("c04_fdw_write_all_from_g3", False, ["C04"]), ("c04_fdw_write_all_from_g0", False, ["C04"]), ("c04_fdw_write_all_from_g8", False, ["C04"])]:
